@@ -70,5 +70,16 @@ Definition lookup_cost (x : Q) (tbl : list (Q * Q)) : Q := snd (nth (nearest x (
 Definition pipes_cost (tbl : list (Q * Q)) (pipes : list (Q * Q)) : Q :=    (* (diameter, length) *)
   sumlist (map (fun p => lookup_cost (fst p) tbl * snd p) pipes).
 
+(* annual_network_cost (economic.py): every tank (construction volume), pipe (diameter x length), pump (maximum power / global
+   efficiency) and PRV (diameter) is charged the entry of ITS table whose size is closest -- whatever the order of the table rows *)
+Definition network_cost (tank_tbl pipe_tbl prv_tbl pump_tbl : list (Q * Q)) (tank_vols : list Q) (pipes : list (Q * Q))
+           (pump_pmax prv_diams : list Q) : Q :=
+  sumlist (map (fun v => lookup_cost v tank_tbl) tank_vols) + pipes_cost pipe_tbl pipes
+  + sumlist (map (fun p => lookup_cost p pump_tbl) pump_pmax) + sumlist (map (fun d => lookup_cost d prv_tbl) prv_diams).
+(* Tank construction volume with a volume curve: the volume at the maximum level plus the same average area below the minimum level *)
+Definition tank_construction_volume_curve (vol_at_max min_level max_level : Q) : Q :=
+  vol_at_max + min_level * (vol_at_max / (max_level - min_level)).
+Definition power_pump_pmax (power efficiency : Q) : Q := power / efficiency.
+
 Definition close (a b tol : Q) : bool := Qle_bool (Qabs (a - b)) (tol * (1 + Qabs b)).
 End Formulas.
